@@ -284,7 +284,7 @@ struct Worker {
       case SPIN:
         for (uint32_t k = 0; k < op.a && k < 64; k++) vsched::harness_point();
         break;
-      case YIELD: vsched::yield_hint(); break;
+      case YIELD: vsched::harness_yield(); break;
       case GUARD_NEW: {
         if (mgr == nullptr || has_guard) {
           X->out.skipped++;
@@ -511,7 +511,7 @@ step_cb(int t)
     g.getid_steps[t] = 0;
     return;
   }
-  if (++g.getid_steps[t] > 2 * kCap + 4 && !g.starve_reported) {  // a sweep over an unchanged table with a free ID takes at most capacity + 1 steps
+  if (++g.getid_steps[t] > 4 * kCap + 8 && !g.starve_reported) {  // two full sweeps at two atomic steps per slot: any probing order finds a free ID in an unchanged table sooner
     g.starve_reported = true;
     report("ID-STARVE", "T" + s(static_cast<size_t>(t)) + " keeps probing inside GetThreadID although only " + s(static_cast<size_t>(owned)) + " of " + s(kCap)
                             + " IDs are held and nobody else is claiming or releasing");
